@@ -21,6 +21,7 @@ namespace VncModel.Life
 @[simp] theorem emit_stray (w : World) (e : Event) : (emit w e).stray = w.stray := rfl
 @[simp] theorem emit_extOn (w : World) (e : Event) : (emit w e).extOn = w.extOn := rfl
 @[simp] theorem emit_extDataLost (w : World) (e : Event) : (emit w e).extDataLost = w.extDataLost := rfl
+@[simp] theorem emit_extNodeLost (w : World) (e : Event) : (emit w e).extNodeLost = w.extNodeLost := rfl
 @[simp] theorem emit_ptrOwner (w : World) (e : Event) : (emit w e).ptrOwner = w.ptrOwner := rfl
 @[simp] theorem emit_pwOn (w : World) (e : Event) : (emit w e).pwOn = w.pwOn := rfl
 
@@ -35,6 +36,7 @@ namespace VncModel.Life
 @[simp] theorem modConn_stray (w : World) (i : Nat) (f : Conn → Conn) : (modConn w i f).stray = w.stray := rfl
 @[simp] theorem modConn_extOn (w : World) (i : Nat) (f : Conn → Conn) : (modConn w i f).extOn = w.extOn := rfl
 @[simp] theorem modConn_extDataLost (w : World) (i : Nat) (f : Conn → Conn) : (modConn w i f).extDataLost = w.extDataLost := rfl
+@[simp] theorem modConn_extNodeLost (w : World) (i : Nat) (f : Conn → Conn) : (modConn w i f).extNodeLost = w.extNodeLost := rfl
 @[simp] theorem modConn_ptrOwner (w : World) (i : Nat) (f : Conn → Conn) : (modConn w i f).ptrOwner = w.ptrOwner := rfl
 @[simp] theorem modConn_pwOn (w : World) (i : Nat) (f : Conn → Conn) : (modConn w i f).pwOn = w.pwOn := rfl
 @[simp] theorem modConn_length (w : World) (i : Nat) (f : Conn → Conn) :
@@ -128,7 +130,8 @@ def Counters (v : Variant) (w : World) : Prop :=
   (v.wsOnePath = true → w.wsLostHs = 0) ∧
   (v.ftClose = true → w.stray = 0) ∧
   (v.extFree = true → w.extLost = 0) ∧
-  (v.goneExtClose = true → w.extDataLost = 0)
+  (v.goneExtClose = true → w.extDataLost = 0) ∧
+  (v.disableFree = true → w.extNodeLost = 0)
 
 structure Inv (v : Variant) (w : World) : Prop where
   nodup : w.list.Nodup
